@@ -50,8 +50,7 @@ def kterm(x):
     if k == 'evar':
         return kore.EVar('V%s' % x[1], kore.SortApp('S0'))
     if k == 'app':
-        name = 'kseq' if x[1] == '999' else 'f%s' % x[1]
-        return kore.App(name, tuple(ksort(s) for s in x[2]), tuple(kterm(a) for a in x[3]))
+        return kore.App(symname(x[1]), tuple(ksort(s) for s in x[2]), tuple(kterm(a) for a in x[3]))
     if k == 'dv':
         return kore.DV(ksort(x[1]), kore.String(x[2]))
     if k in ('top', 'bottom'):
@@ -67,6 +66,68 @@ def kterm(x):
     if k in ('equals', 'in'):
         return {'equals': kore.Equals, 'in': kore.In}[k](ksort(x[1]), ksort(x[2]), kterm(x[3]), kterm(x[4]))
     raise ValueError(x)
+
+
+SPECIAL = {'999': 'kseq', '1000001': 'functional', '1000002': 'constructor', '1000003': 'cell'}
+
+
+def symname(n):
+    return SPECIAL.get(str(n), 'f%s' % n)
+
+
+def unname(s):
+    """the number of a Kore name of the protocol (`S3`, `f5`, `V2`, `M0`, `kseq`, `functional`, …)"""
+    for k, v in SPECIAL.items():
+        if v == s:
+            return k
+    return s[1:]
+
+
+class _Other:
+    """a sentence of a class the builder has no branch for"""
+
+
+def kdefinition(x):
+    """the Kore definition of the protocol: (def (module N (import M) (sort N 0|1) (symbol N (vars ..) (params ..) SORT (attrs ..)) (axiom T) (other))..)"""
+    mods = []
+    for m in x[1:]:
+        sents = []
+        for st in m[2:]:
+            k = st[0]
+            if k == 'import':
+                sents.append(kore.Import('M%s' % st[1], ()))
+            elif k == 'sort':
+                sents.append(kore.SortDecl('S%s' % st[1], (), (), st[2] == '1'))
+            elif k == 'symbol':
+                sents.append(kore.SymbolDecl(kore.Symbol(symname(st[1]), tuple(ksort(v) for v in st[2][1:])), tuple(ksort(p_) for p_ in st[3][1:]),
+                                             ksort(st[4]), tuple(kterm(a) for a in st[5][1:])))
+            elif k == 'axiom':
+                sents.append(kore.Axiom((), kterm(st[1]), ()))
+            else:
+                sents.append(_Other())
+        mods.append(kore.Module('M%s' % m[1], tuple(sents), ()))
+    return kore.Definition(tuple(mods), ())
+
+
+def dump_semantics(sem):
+    from proof_generation.k.kore_convertion.language_semantics import KRewritingRule, KSort
+    def ref(r):
+        return '(s %s)' % unname(r.name) if isinstance(r, KSort) else '(sv %s)' % unname(r.name)
+    mods, counters = [], []
+    for m in sem._imported_modules:
+        if not any(c is m.counter for c in counters):
+            counters.append(m.counter)
+        sorts = ' '.join('(%s %d)' % (unname(srt.name), srt.hooked) for srt in m._sorts.values())
+        syms = ' '.join('(%s (%s) (%s) %s %d %d %d)' % (unname(y.name), ' '.join(unname(v.name) for v in y.sort_params), ' '.join(ref(r) for r in y.input_sorts),
+                                                       ref(y.output_sort), y.is_functional, y.is_ctor, y.is_cell) for y in m._symbols.values())
+        axs = ' '.join('(%d %s %s)' % (a.ordinal, 'rw' if isinstance(a, KRewritingRule) else 'eq', out(a.pattern)) for a in m._axioms.values())
+        mods.append('(module %s (sorts %s) (symbols %s) (axioms %s))' % (unname(m.name), sorts, syms, axs))
+    return '(ls %s %s (counters (%s)))' % (' '.join(mods), dump_scopes(sem), ' '.join(repr(c)[6:-1] for c in counters))
+
+
+def dump_scopes(sem):
+    return '(scopes %s)' % ' '.join('(%d (%s) (%s))' % (o, ' '.join(k[1:] for k in sc._metavars), ' '.join(k[1:] for k in sc._sort_param_metavars))
+                                    for o, sc in sem._cached_axiom_scopes.items())
 
 
 def definition(sig, rules=()):
@@ -115,6 +176,45 @@ def _handle(cmd, args):
         except Exception as e:   # noqa
             return '(raise)'
         return '(ok %s (scope (%s) (%s)))' % (out(p), ' '.join(k[1:] for k in scope._metavars), ' '.join(k[1:] for k in scope._sort_param_metavars))
+    if cmd in ('kdef', 'khints', 'ksym', 'kcount'):
+        from proof_generation.k.kore_convertion.language_semantics import KRewritingRule
+        try:
+            sem = LanguageSemantics.from_kore_definition(kdefinition(args[0]))
+        except RecursionError:
+            return 'fuel'
+        except Exception as e:   # noqa
+            return '(raise)' if cmd == 'kdef' else '(refused)'
+        if cmd == 'kcount':
+            try:
+                return '(count %d)' % sem.count_simplifications(sem.convert_pattern(kterm(args[1])))
+            except RecursionError:
+                return 'fuel'
+            except Exception as e:   # noqa
+                return '(raise)'
+        if cmd == 'kdef':
+            return dump_semantics(sem)
+        if cmd == 'ksym':      # get_symbol(name): the number of its input sorts, and the order in which the modules are searched
+            return '(ksym %d (%s))' % (len(sem.get_symbol(symname(args[1])).input_sorts), ' '.join(unname(m.name) for m in reversed(sem.modules)))
+        from proof_generation.k.kore_convertion.rewrite_steps import get_proof_hints
+        from proof_generation.llvm_proof_hint import LLVMRewriteTrace, LLVMRuleEvent, LLVMSideCondEvent
+        items = []
+        for it in args[1][2:]:
+            if it[0] == 'rule':
+                items.append(LLVMRuleEvent(int(it[1]), tuple(('V%s' % a, kterm(t)) for a, t in it[2])))
+            elif it[0] == 'config':
+                items.append(kterm(it[1]))
+            else:
+                items.append(LLVMSideCondEvent(0, ()))
+        try:
+            hints = list(get_proof_hints(LLVMRewriteTrace((), kterm(args[1][1]), tuple(items)), sem))
+        except RecursionError:
+            return 'fuel'
+        except Exception as e:   # noqa
+            return '(raise)'
+        hs = ' '.join('(hint (%d %s %s) %s %s (%s))' % (h.axiom.ordinal, 'rw' if isinstance(h.axiom, KRewritingRule) else 'eq', out(h.axiom.pattern),
+                                                        out(h.configuration_before), out(h.configuration_after),
+                                                        ' '.join('(%d %s)' % (k, out(v)) for k, v in h.substitutions.items())) for h in hints)
+        return '(hints %s %s)' % (hs, dump_scopes(sem))
     if cmd in ('ktrace', 'kmodule'):
         from proof_generation.k.execution_proof_generation import ExecutionProofExp
         from proof_generation.k.kore_convertion.rewrite_steps import get_proof_hints
